@@ -437,9 +437,12 @@ def finish(run, level, rule, required=None, assumptions=None, exhaustive=None, e
         if run.stats.get(name, 0) < minimum:
             missing.append("%s=%d<%d" % (name, run.stats.get(name, 0), minimum))
 
+    distinct = getattr(run, "distinct_override", None)
+    if distinct is None:
+        distinct = len(run.nontrivial)
     coverage = {
         "evaluations": run.evaluations,
-        "distinct_nontrivial": len(run.nontrivial),
+        "distinct_nontrivial": distinct,
         "rule": rule,
         "samples": run.samples[:12] or ["<none>"],
         "observed": dict(sorted(run.stats.items())),
@@ -465,7 +468,7 @@ def finish(run, level, rule, required=None, assumptions=None, exhaustive=None, e
     for l in lines:
         print(l)
     print("[%s] tier=%s seed=%d evaluations=%d distinct_nontrivial=%d violations=%d known=%d inconclusive=%d wall=%.1fs"
-          % (prop, run.tier, run.seed, run.evaluations, len(run.nontrivial), len(new), len(seen_known),
+          % (prop, run.tier, run.seed, run.evaluations, distinct, len(new), len(seen_known),
              len(run.inconclusive), time.time() - run.t0))
     if lines:
         return 1
